@@ -16,8 +16,9 @@ CONSTANTS
   DelHi = {2, 3, 9}
   MaxPend = 3
   AllowKF = {}
-  KFInitOpts = TRUE
-  KFV1Hist = TRUE
+  KFInitOpts = FALSE
+  KFV1Hist = FALSE
+  PreT = {}
   Balanced = FALSE
   MaxOps = 8
   EmitMode = "class"
